@@ -75,7 +75,7 @@ CHECKS = {
    note="a DeriveInput parse failure of the parser library counts as reject; parser-library wording is exempt; both builds use proc_macro2's fallback lexer",
    technique=TECH_X + " with a differential oracle between the two back-end builds"),
  "C19": dict(level="model_checking", design="DESIGN.md §8 C19, §6",
-   text="hooks build: every HashMap/HashSet of o2o-impl is a stand-in whose iteration order is a choice point of the explorer; for every input (incl. all pairs of misuse injections = several diagnostics at once) every iteration order of every iterated container is enumerated while the real derive runs and the rendered result must be identical; plus guard-off runs in K fresh processes under three environments (inherited, empty, cargo-like with odd values) must be byte-equal to the explored singleton (labelled sampling over hash seeds); plus a getenv-interposed run (LD_PRELOAD shim built with cc): a variable read only while inputs are expanded is a violation",
+   text="hooks build: every HashMap/HashSet of o2o-impl is a stand-in whose iteration order is a choice point of the explorer; for every input (incl. all pairs of misuse injections = several diagnostics at once) every iteration order of every iterated container is enumerated while the real derive runs and the rendered result must be identical; plus guard-off runs in K fresh processes under three environments (inherited, empty, cargo-like with odd values) must be byte-equal to the explored singleton (labelled sampling over hash seeds); plus a getenv-interposed run (LD_PRELOAD shim built with cc): every variable read only while inputs are expanded is then varied (unset, empty, 1, o2o, true, /tmp) and a change of any output is a violation",
    note="hash-container order and environment variables are owned by the harness (order oracle; getenv tracing, recorded as getenv_traced in the evidence - when cc is unavailable only the three environment profiles remain); clock, files and statics are not intercepted (none in o2o-impl, checked by reading); a std::collections import that bypasses the cfg-switched use lines is only visible to the fresh-process runs",
    technique="stateless model checking of the real code under a controlled order oracle (exhaustive enumeration of iteration orders) + conformance runs in fresh processes"),
  "C16": dict(level="exploration", design="DESIGN.md §8 C16",
